@@ -182,6 +182,12 @@ func runWrappers(c *vrt.Ctx) {
 				p := vrt.TryFast(func() { k.call(x, y, nx, ny, ix, iy) })
 				calls++
 				c.Eval("wrap."+k.name+"|"+fault, true)
+				if bad && p != nil {
+					sampWrap.offer(c, 1, func() any {
+						return map[string]any{"sub_check": "wrapper packages", "call": fmt.Sprintf("%s(x{N:%d Inc:%d}, y{N:%d Inc:%d})", k.name, nx, ix, ny, iy),
+							"perturbation": fault, "outcome": "panic: " + p.Msg, "data_changed": vrt.FirstBitDiff(x, bx, nil) >= 0 || vrt.FirstBitDiff(y, by, nil) >= 0}
+					})
+				}
 				switch {
 				case !bad:
 					if p != nil {
